@@ -16,6 +16,8 @@ def run(ctx):
         if not q:
             vlib.model_check(ctx, FAM, "FeedMC.tla", "Feed_live.cfg", timeout=3000)
             vlib.model_check(ctx, FAM, "FeedMC.tla", "Feed_full.cfg", timeout=6000, heap="24g")
+        vlib.model_check(ctx, FAM, "TypeMux.tla", "TypeMux_cow.cfg", timeout=1500)
+        vlib.model_check(ctx, FAM, "TypeMux.tla", "TypeMux_inplace.cfg", expect_violation="NoDuplicate", timeout=600)
         ctx.exhaustive = True
     # ---- 2. real code -----------------------------------------------------
     trace = os.path.join(ctx.work, "feed_random.ndjson")
@@ -56,7 +58,34 @@ def run(ctx):
         ctx.traces_validated += scn
     if rc != 0 and not race and v.accepted:
         raise vlib.Infra("feed driver failed:\n" + out[-2000:])
-    ctx.assumptions = ["tickets are taken before a call and after its return, so recorded intervals contain the real ones",
+    # ---- 4. the older TypeMux (event.go): subscribers as scheduler gates ----
+    mtrace = os.path.join(ctx.work, "mux.ndjson")
+    rc2, out2 = vlib.go_test(ctx, "aqua/event", "TestVerifMux$", env={"VERIF_MUX_OUT": mtrace, "VERIF_N": 400 if q else 20000}, race=True, timeout=3000)
+    m2 = re.search(r"VERIF-STAT mux scenarios=(\d+) steps=(\d+)", out2)
+    race2 = "DATA RACE" in out2
+    if not m2 and not race2:
+        raise vlib.Infra("mux driver produced no statistics:\n" + out2[-2000:])
+    def msave(name):
+        mp = os.path.join(ctx.work, "meta.json")
+        json.dump(meta, open(mp, "w"))
+        return ctx.save_replay(name, [mtrace, mp])
+    if race2:
+        ctx.violation("race detector report in event.TypeMux under Post / Unsubscribe:\n" + out2[out2.find("DATA RACE") - 100:][:1500], msave("mux-race"))
+    if m2:
+        ctx.evaluations += int(m2.group(2))
+        v2 = vlib.validate_trace(ctx, FAM, "MuxTrace.tla", "MuxTrace.cfg", mtrace, name="trace_mux")
+        mevs = vlib.read_ndjson(mtrace)
+        for e in mevs:
+            ctx.signatures.add(("mux", e["nsubs"], tuple(s["op"] for s in e["steps"])[:12]))
+        if not v2.accepted:
+            ev = mevs[v2.line - 1] if v2.line and v2.line <= len(mevs) else {}
+            ctx.violation("MuxTrace invariant %s false at trace line %s: %s" % (v2.violated, v2.line, json.dumps(ev)[:900]), msave("mux-trace"))
+        else:
+            ctx.traces_validated += int(m2.group(1))
+        if rc2 != 0 and not race2 and v2.accepted:
+            raise vlib.Infra("mux driver failed:\n" + out2[-2000:])
+    ctx.assumptions = ["TypeMux: the driver thread owns every subscriber and performs Subscribe / Unsubscribe itself, so the recorded step order is the real order; no interference between a Post's start and its first delivery",
+                       "tickets are taken before a call and after its return, so recorded intervals contain the real ones",
                        "Go channel semantics as modelled in Feed.tla (TrySend succeeds iff buffer room or parked receiver)"]
     vlib.write_evidence(ctx, rule="TLC: all interleavings of Feed.tla for the listed configs; Go: seeded random concurrent "
                         "scenarios (1-3 senders x 1-3 sends, 1-5 subscribers cap 0-2, early/late (un)subscribe, slow receivers, "
